@@ -158,10 +158,17 @@ theorem Ext.fuel_linear {ty : String → Bool} : ∀ (e : Ext), WFExt ty e → e
     simp only [Ext.fuel, Ext.ntoks, FDef.fuel, FDef.ntoks]; omega
   | .fdefp f, hw => by
     have hw' : WFFDefP ty f := hw
-    have h1 := Param.fuel_linear hw'.params.first
-    have h2 := paramsRestFuel_linear f.fd.params.more hw'.params.more
     have h3 := SL.fuel_linear f.body hw'.body
-    simp only [Ext.fuel, Ext.ntoks, FDefP.fuel, FDefP.ntoks, FD.fuel, FD.ntoks, PL.fuel, PL.ntoks]; omega
+    have hp := hw'.params
+    cases hpv : f.fd.params with
+    | named l =>
+      rw [hpv] at hp
+      have hp' : WFPL l := hp
+      have h1 := Param.fuel_linear hp'.first
+      have h2 := paramsRestFuel_linear l.more hp'.more
+      simp only [Ext.fuel, Ext.ntoks, FDefP.fuel, FDefP.ntoks, FD.fuel, FD.ntoks, hpv, PLV.fuel, PLV.ntoks, PL.fuel, PL.ntoks]; omega
+    | void =>
+      simp only [Ext.fuel, Ext.ntoks, FDefP.fuel, FDefP.ntoks, FD.fuel, FD.ntoks, hpv, PLV.fuel, PLV.ntoks]; omega
 
 /-- **the recursion budget of a whole translation unit is linear in the number of its tokens** -/
 theorem extsFuel_linear {ty : String → Bool} : ∀ (l : List Ext), (∀ e ∈ l, WFExt ty e) → extsFuel l ≤ 17 * extsNtoks l + 1
@@ -185,9 +192,14 @@ theorem extsFlat_length : ∀ (l : List Ext), (extsFlat l).length = extsNtoks l
           induction l with
           | nil => rfl
           | cons p r ih => simp [paramsRestFlat, paramsRestNtoks, Param.flat_length, ih]; omega
-        simp [Ext.flat, Ext.ntoks, FDefP.flat, FDefP.ntoks, FD.flat, FD.ntoks, PL.flat, PL.ntoks, bodyFlat, Param.flat_length,
-          SL.flat_length, hp]
-        omega
+        cases hpv : f.fd.params with
+        | named l =>
+          simp [Ext.flat, Ext.ntoks, FDefP.flat, FDefP.ntoks, FD.flat, FD.ntoks, hpv, PLV.flat, PLV.ntoks, PL.flat, PL.ntoks, bodyFlat,
+            Param.flat_length, SL.flat_length, hp]
+          omega
+        | void =>
+          simp [Ext.flat, Ext.ntoks, FDefP.flat, FDefP.ntoks, FD.flat, FD.ntoks, hpv, PLV.flat, PLV.ntoks, bodyFlat, SL.flat_length]
+          omega
     simp [extsFlat, extsNtoks, this, extsFlat_length r]
 
 end PycModel.TuFuel
